@@ -1,11 +1,14 @@
 package props
 
 import (
+	"bytes"
 	"fmt"
 	"io"
 	"os"
+	"os/exec"
 	"path/filepath"
 	"strings"
+	"time"
 
 	"github.com/spf13/afero"
 
@@ -113,7 +116,7 @@ func readAllAligned(r io.Reader, bufSize int, limit int64) ([]byte, error) {
 	var out []byte
 	buf := make([]byte, bufSize)
 	for {
-		n, err := io.ReadFull(r, buf)
+		n, err := readFullProgress(r, buf)
 		out = append(out, buf[:n]...)
 		if int64(len(out)) > limit {
 			return out, fmt.Errorf("image larger than %d bytes", limit)
@@ -125,6 +128,53 @@ func readAllAligned(r io.Reader, bufSize int, limit int64) ([]byte, error) {
 			return out, err
 		}
 	}
+}
+
+// combinedOutputBounded is cmd.CombinedOutput with a bound: a tool that is still running after a minute (the trees
+// here take it well under a second) does not come to an end - which for a tool is a failure, not something to wait for.
+func combinedOutputBounded(cmd *exec.Cmd) ([]byte, error) {
+	var buf bytes.Buffer
+	cmd.Stdout, cmd.Stderr = &buf, &buf
+	if err := cmd.Start(); err != nil {
+		return nil, err
+	}
+	done := make(chan error, 1)
+	go func() { done <- cmd.Wait() }()
+	select {
+	case err := <-done:
+		return buf.Bytes(), err
+	case <-time.After(time.Minute):
+		cmd.Process.Kill()
+		<-done
+		return buf.Bytes(), hx.Failf("tool-terminates", "%s %s was still running after a minute", filepath.Base(cmd.Path), cmd.Args[1])
+	}
+}
+
+// readFullProgress is io.ReadFull for a reader that may be broken: reads that return nothing and no error are an
+// oracle failure after a hundred of them in a row (io.ReadFull would spin for ever).
+func readFullProgress(r io.Reader, buf []byte) (int, error) {
+	n, idle := 0, 0
+	for n < len(buf) {
+		k, err := r.Read(buf[n:])
+		n += k
+		if err == io.EOF {
+			if n == 0 {
+				return 0, io.EOF
+			}
+			return n, io.ErrUnexpectedEOF
+		}
+		if err != nil {
+			return n, err
+		}
+		if k == 0 {
+			if idle++; idle > 100 {
+				return n, hx.Failf("progress-to-size", "sequential read makes no progress: Read returns (0, nil) again and again")
+			}
+		} else {
+			idle = 0
+		}
+	}
+	return n, nil
 }
 
 // expectedNames: how a portable source name appears in each hierarchy.
